@@ -13,6 +13,7 @@ from vf.writers import hds as w
 
 ID = "C06"
 LEVEL = "exploration"
+STEP_BUDGET = 3_000_000  # line events per case; a case that exceeds it is reported as non-termination
 ANCHOR_FILES = ["dissect/hypervisor/disk/hdd.py"]
 RULE = (
     "HDS images written by an independent writer from a content model: v1 (BAT in sectors, also at sector "
